@@ -196,7 +196,7 @@ pub fn run(cases: &[String]) -> RunOut {
             "E" => { if shadow.len() >= 2 && interesting { out.stats.nontrivial_case(&text); out.stats.sample(&text); } acct = None; "end".into() }
             other => panic!("unknown op {other}"),
         };
-        out.push(impl_line, err.map_or(Ok(()), Err));
+        out.push(demote_codes(&impl_line), err.map_or(Ok(()), Err));
     }
     out
 }
